@@ -53,7 +53,10 @@ CosF(c, a) == [fam |-> "cos", idx |-> c, alpha |-> a]
 GaussF(c, mu, v) == [fam |-> "gauss", idx |-> c, mean |-> mu, var |-> v]
 ModeCat(d) ==
     UNION {{<<Const(c), Id(c), Mono(c, 2, <<1, 1>>)>>, <<Id(c)>>, <<IndF(c, -3, 0), IndF(c, 0, 3)>>,
-            <<Mono(c, 3, <<-2, 1>>), Const(c)>>} : c \in 0..(d - 1)}
+            <<Mono(c, 3, <<-2, 1>>), Const(c)>>,
+            \* overlapping / nested indicators only: a snapshot pair shares several active functions, the mode's Gram factor
+            \* is a count (not a logical "or")
+            <<IndF(c, -3, 3), IndF(c, -1, 2), IndF(c, 0, 3)>>} : c \in 0..(d - 1)}
     \cup (IF Level >= 2 THEN {<<SinF(0, <<1, 1>>), CosF(d - 1, <<1, 2>>), GaussF(0, <<0, 1>>, <<1, 1>>)>>} ELSE {<<SinF(0, <<1, 1>>), Const(0)>>})
 ScalarCat ==
     {<<Const(0), Id(0), Mono(0, 2, <<1, 1>>)>>, <<Id(0), Mono(0, 3, <<1, 1>>)>>, <<Id(0)>>, <<SinF(0, <<1, 1>>), CosF(0, <<1, 1>>)>>}
